@@ -684,6 +684,7 @@ func atoi(s string) int { n, _ := strconv.Atoi(s); return n }
 
 func (e *engine) Execute(raw json.RawMessage) (vd harness.Verdict) {
 	warm.Do(warmUp)
+	slip.VerifResetPrinter() // lazily grown process-global printer state: the same for every case
 	var c Case
 	if err := json.Unmarshal(raw, &c); err != nil {
 		panic(err)
